@@ -39,11 +39,15 @@ type detProgram struct {
 	Files     int `json:"files"`
 	Overloads int `json:"overloads"`
 	XGoDeps   int `json:"xgodeps"`
+	Forced    int `json:"forced"`
+	SameBase  int `json:"samebase"`
 }
 
 var detFixtures = map[string]string{
 	"i1": "package i1\nfunc F1() {}\n", "i2": "package i2\nfunc F2() {}\n", "i3": "package i3\nfunc F3() {}\n",
 	"xa": "package xa\nconst XGoPackage = true\ntype T struct{}\n", "xb": "package xb\nconst XGoPackage = true\ntype T struct{}\n", "xc": "package xc\nconst XGoPackage = true\ntype T struct{}\n",
+	"z1": "package z1\n", "z2": "package z2\n", "z3": "package z3\n",
+	"ha/tpl": "package tpl\nfunc Ha() {}\n", "tx/tpl": "package tpl\nfunc Tx() {}\n", "um/tpl": "package tpl\nfunc Um() {}\n",
 	"ov": "package ov\nconst XGoPackage = true\nfunc F__0(a int) int { return 0 }\nfunc F__1(a string) int { return 0 }\nfunc G__0(a int) int { return 0 }\nfunc G__1(a string) int { return 0 }\nfunc H__0(a int) int { return 0 }\nfunc H__1(a string) int { return 0 }\n",
 }
 
@@ -100,6 +104,17 @@ func detBuild(pr detProgram) (string, error) {
 		for i := 1; i <= pr.Imports; i++ {
 			cb.Val(pkg.Import(fmt.Sprintf("i%d", i)).Ref(fmt.Sprintf("F%d", i))).Call(0).EndStmt()
 		}
+		if fi == 0 {
+			for i := 1; i <= pr.Forced; i++ {
+				pkg.ForceImport(fmt.Sprintf("z%d", i))
+			}
+		}
+		// imports sharing the base name tpl (and a package-level function tpl): the first file needs SameBase
+		// aliases, every other file exactly one
+		sb := [][2]string{{"tx/tpl", "Tx"}, {"ha/tpl", "Ha"}, {"um/tpl", "Um"}}
+		for i := 0; i < pr.SameBase && (fi == 0 || i == 0); i++ {
+			cb.Val(pkg.Import(sb[i][0]).Ref(sb[i][1])).Call(0).EndStmt()
+		}
 		for i, f := range []string{"F", "G", "H"} {
 			if i < pr.Overloads {
 				cb.Val(pkg.Import("ov").Ref(f)).Val(1).Call(1).EndStmt()
@@ -109,6 +124,9 @@ func detBuild(pr detProgram) (string, error) {
 		cb.End()
 	}
 	pkg.SetCurFile("", true)
+	if pr.SameBase > 0 {
+		pkg.NewFunc(nil, "tpl", nil, nil, false).BodyStart(pkg).End()
+	}
 	if pr.XGoDeps > 0 {
 		var ps []*types.Var
 		for i, x := range []string{"xa", "xb", "xc"} {
@@ -118,14 +136,24 @@ func detBuild(pr detProgram) (string, error) {
 		}
 		pkg.NewFunc(nil, "Exported", types.NewTuple(ps...), nil, false).BodyStart(pkg).End()
 	}
+	// the files are rendered in the order the client's walk over the file table happens to take
+	// (Package.ForEachFile), each into its own buffer; the buffers are compared per file name
 	var out strings.Builder
+	bufs := map[string]string{}
+	var werr error
+	pkg.ForEachFile(func(fn string, _ *gogen.File) {
+		var buf bytes.Buffer
+		if err := gogen.WriteTo(&buf, pkg, fn); err != nil && werr == nil {
+			werr = fmt.Errorf("WriteTo(%q): %v", fn, err)
+		}
+		bufs[fn] = buf.String()
+	})
+	if werr != nil {
+		return "", werr
+	}
 	sort.Strings(names)
 	for _, fn := range names {
-		var buf bytes.Buffer
-		if err := gogen.WriteTo(&buf, pkg, fn); err != nil {
-			return "", fmt.Errorf("WriteTo(%q): %v", fn, err)
-		}
-		fmt.Fprintf(&out, "// ==== file %q\n%s", fn, buf.String())
+		fmt.Fprintf(&out, "// ==== file %q\n%s", fn, bufs[fn])
 	}
 	if len(errs) > 0 {
 		return "", fmt.Errorf("builder reported: %v", errs)
@@ -164,9 +192,13 @@ func runC15(tier, replay string) {
 	}
 	run := ev.Start("C15", tier, "model_checking")
 	var progs []detProgram
+	maxItems := "2"
+	if tier == "thorough" {
+		maxItems = "3"
+	}
 	mod := "---- MODULE DetRun ----\nEXTENDS Determinism\nSortedImpl == [c \\in Collections |-> TRUE]\nSortedBug == [c \\in Collections |-> c # \"xgodeps\"]\n====\n"
 	cfg := func(sorted string, emit bool) string {
-		s := "INIT Init\nNEXT Next\nCONSTANTS\n  MaxItems = 3\n  Sorted <- " + sorted + "\nINVARIANTS OutputIndependentOfOrder"
+		s := "INIT Init\nNEXT Next\nCONSTANTS\n  MaxItems = " + maxItems + "\n  Sorted <- " + sorted + "\nINVARIANTS OutputIndependentOfOrder"
 		if emit {
 			s += " Emit"
 		}
@@ -238,6 +270,12 @@ func runC15(tier, replay string) {
 				}
 				if p.XGoDeps > 1 {
 					which = append(which, "xgodeps")
+				}
+				if p.Forced > 1 {
+					which = append(which, "forced")
+				}
+				if p.SameBase > 0 {
+					which = append(which, "samebase")
 				}
 				run.Fail("output-differs-between-builds/"+diffKind(first, out), fmt.Sprintf("program %+v: build %d differs from build 1: %s (collections with >= 2 items: %v)", p, k+1, firstDiff(first, out), which), p)
 				break
